@@ -170,12 +170,26 @@ func (h *HttpServer) readHTTPBody(r *http.Request) ([]byte, error) {
 		return body, nil
 	case "zstd", "gzip":
 		decompressedCap := h.maxDecompressedBodySize
+		capIsRequestCap := false
 		if requestCapApplied && (decompressedCap <= 0 || limit < decompressedCap) {
 			decompressedCap = limit
-		} else if decompressedCap <= 0 && limit > 0 {
+			capIsRequestCap = true
+		} else if decompressedCap == 0 && limit > 0 {
+			// Only the unset value derives; a negative value disables the cap
+			// (see SetMaxDecompressedBodySize).
 			decompressedCap = limit * 16
 		}
-		return decompressBounded(encoding, body, decompressedCap)
+		decoded, err := decompressBounded(encoding, body, decompressedCap)
+		var tooLarge *decodedBodyTooLargeError
+		if errors.As(err, &tooLarge) {
+			if capIsRequestCap {
+				// The advertised max_request_bytes: 413, like the raw overrun.
+				return nil, &requestBodyTooLargeError{Limit: limit}
+			}
+			// A private decompression bound is not the advertised cap: 400.
+			return nil, &RpcError{Type: "ValueError", Message: fmt.Sprintf("Decompressed request body exceeds maximum size of %d bytes", tooLarge.Limit)}
+		}
+		return decoded, err
 	default:
 		return nil, &unsupportedEncodingError{Encoding: encoding}
 	}
